@@ -3026,13 +3026,10 @@ class FuncParseDate(ValueFunc):
                 and fmt.find("s") == -1
                 and s == ""
             ):
-                date = datetime.datetime.fromtimestamp(0)
-                date = date.replace(microsecond=0)
-                date = date.replace(second=0)
-                date = date.replace(minute=0)
-                date = date.replace(hour=0)
-                date = date.replace(day=1)
-                date = date.replace(month=1)
+                # fields the format does not name are those of 1970-01-01
+                # 00:00:00 (fromtimestamp(0) is that instant in local time:
+                # 1969 in every time zone west of Greenwich)
+                date = datetime.datetime(1970, 1, 1)
                 try:
                     for part in vals:
                         if part == "yyyy":
